@@ -208,6 +208,28 @@ func key7Buffer(c *Ctx, v ssa.Value) ssa.Value {
 	case *ssa.Slice:
 		return key7Buffer(c, x.X)
 	}
+	// the result of a lib/query helper that returns the text of a buffer it was handed
+	if call, ok := v.(*ssa.Call); ok {
+		if g := core.StaticCallee(call); g != nil && g.Blocks != nil && (c.P.InPkg(g, "lib/query") || c.P.IsControl(g)) && g.Signature.Results().Len() == 1 {
+			var buf ssa.Value
+			for _, rv := range core.ReturnedValues(g, 0) {
+				b := key7Buffer(c, rv)
+				prm, isParam := b.(*ssa.Parameter)
+				if b == nil || !isParam {
+					return nil
+				}
+				for i, q := range g.Params {
+					if q == prm && i < len(call.Call.Args) {
+						if buf != nil && buf != call.Call.Args[i] {
+							return nil
+						}
+						buf = call.Call.Args[i]
+					}
+				}
+			}
+			return buf
+		}
+	}
 	return nil
 }
 
